@@ -167,3 +167,146 @@ def _seen_by_tuner(log, t, r):
         elif ended and e[0] == "stop_all":
             return False
     return False
+
+
+def delivery(ex, store_cb=None):
+    """C02: delivered results are a gap-free, duplicate-free, in-order prefix of what each run reported;
+    nothing reported after a stop/pause decision (nor 'late' output) is ever delivered; after a resume delivery
+    continues with the first report of the new run; a run that completed by itself and was seen is delivered fully."""
+    from syne_tune.constants import ST_WORKER_TIMESTAMP
+    v = []
+    log = ex.log
+    backend = ex.backend
+    by_ts = {}
+    for t, lst in backend.metrics.items():
+        for m, (r, i, late) in zip(lst, backend.truth[t]):
+            by_ts[m[ST_WORKER_TIMESTAMP]] = (t, r, i, late)
+    cur_run = {}
+    delivered = {}     # (t, r) -> list of idx
+    decided = set()    # runs with a STOP/PAUSE decision
+    emitted = {}       # (t, r) -> count of non-late emissions
+    ended = {}
+    n_delivered = 0
+    order = []
+    for e in log:
+        k = e[0]
+        if k == "schedule":
+            cur_run[e[1]] = e[2]
+            delivered.setdefault((e[1], e[2]), [])
+        elif k == "emit":
+            if not e[5]:
+                emitted[(e[1], e[2])] = emitted.get((e[1], e[2]), 0) + 1
+        elif k in ("exit", "crash", "ext_stop"):
+            ended[(e[1], e[2])] = k
+        elif k == "on_trial_result":
+            t, res, dec = e[1], e[2], e[3]
+            n_delivered += 1
+            ts = res.get(ST_WORKER_TIMESTAMP)
+            order.append((t, ts))
+            if ts not in by_ts:
+                v.append(("delivery:unknown-result", f"trial {t}: delivered a result nobody reported: {res}"))
+                continue
+            tt, r, i, late = by_ts[ts]
+            if tt != t:
+                v.append(("delivery:wrong-trial", f"result of trial {tt} delivered as trial {t}"))
+                continue
+            cr = cur_run.get(t)
+            if late:
+                v.append(("delivery:late-result-delivered" + (":after-resume" if r != cr else ""),
+                          f"trial {t}: a result written after the stop/pause decision of run {r} (level {res.get(backend.spec.resource_attr)}) "
+                          f"was delivered during run {cr}"))
+                continue
+            if r != cr:
+                v.append(("delivery:stale-run-result", f"trial {t}: result #{i} of run {r} delivered while run {cr} is current"))
+                continue
+            if (t, r) in decided:
+                v.append(("delivery:after-decision", f"trial {t} run {r}: result #{i} delivered after the stop/pause decision"))
+            lst = delivered[(t, r)]
+            if i != len(lst):
+                kind = "duplicate" if i < len(lst) else "gap"
+                v.append((f"delivery:{kind}", f"trial {t} run {r}: result #{i} delivered, expected #{len(lst)}"))
+            lst.append(i)
+            if dec in ("STOP", "PAUSE"):
+                decided.add((t, r))
+    for (t, r), how in ended.items():
+        if how == "exit" and (t, r) not in decided and _seen_by_tuner(log, t, r) and ex.exc is None:
+            if len(delivered.get((t, r), [])) != emitted.get((t, r), 0):
+                v.append(("delivery:completed-run-incomplete",
+                          f"trial {t} run {r} completed by itself after {emitted.get((t, r), 0)} reports, only "
+                          f"{len(delivered.get((t, r), []))} were delivered"))
+    if store_cb is not None:
+        rows = [(int(r["trial_id"]), r.get(ST_WORKER_TIMESTAMP)) for r in store_cb.results]
+        if rows != order:
+            v.append(("delivery:results-log-differs", f"results log has {len(rows)} rows, {len(order)} results were delivered "
+                                                      f"(first difference at {next((i for i, (a, b) in enumerate(zip(rows, order)) if a != b), min(len(rows), len(order)))})"))
+    ex.n_delivered = n_delivered
+    out, seen = [], set()
+    for key, msg in v:
+        if key not in seen:
+            seen.add(key)
+            out.append((key, msg))
+    return out
+
+
+def checkpoints(ex, speculative=False):
+    """C20: a checkpoint is deleted only once its trial was stopped by the scheduler, can provably never be resumed
+    (declared by the scheduler), or tuning has ended; resume / warm-start never uses a deleted checkpoint."""
+    v = []
+    state = {}
+    declared = set()
+    deleted_declared = set()
+    in_stop_all = False
+    n_del = n_res = n_copy = 0
+    for e in ex.log:
+        k = e[0]
+        if k == "schedule":
+            state[e[1]] = "running"
+        elif k == "pause":
+            state[e[1]] = "paused"
+        elif k == "stop":
+            state[e[1]] = "stopped"
+        elif k == "exit":
+            state[e[1]] = "completed"
+        elif k == "crash":
+            state[e[1]] = "failed"
+        elif k == "ext_stop":
+            state[e[1]] = "ext_stopped"
+        elif k == "stop_all":
+            in_stop_all = True
+        elif k == "declared":
+            declared.update(e[1])
+        elif k == "delete":
+            t, had = e[1], e[2]
+            n_del += 1
+            if in_stop_all or state.get(t) == "stopped":
+                continue
+            if t in declared:
+                if state.get(t) != "paused":
+                    v.append((f"checkpoint:declared-removable-while-{state.get(t)}",
+                              f"scheduler declared the checkpoint of trial {t} removable while the trial is {state.get(t)}"))
+                deleted_declared.add(t)
+                continue
+            if speculative and state.get(t) == "paused":
+                continue
+            v.append((f"checkpoint:deleted-while-{state.get(t)}", f"checkpoint of trial {t} deleted while the trial is {state.get(t)} "
+                                                                  f"(not stopped by the scheduler, not declared removable, tuning not ended)"))
+        elif k == "resume":
+            t, has, deleted = e[1], e[2], e[3]
+            n_res += 1
+            if t in deleted_declared:
+                v.append(("checkpoint:declared-removable-trial-resumed", f"trial {t} was declared never-to-be-resumed, its checkpoint removed, then it was resumed"))
+            elif deleted and not speculative:
+                v.append(("checkpoint:resume-after-delete", f"trial {t} resumed after its checkpoint had been deleted"))
+        elif k == "copy":
+            src, tgt, has, deleted = e[1], e[2], e[3], e[4]
+            n_copy += 1
+            if deleted:
+                v.append((f"checkpoint:copy-after-delete:src-{state.get(src)}",
+                          f"trial {tgt} warm-started from the checkpoint of trial {src} which had been deleted (source is {state.get(src)})"))
+    ex.ckpt_counts = (n_del, n_res, n_copy)
+    out, seen = [], set()
+    for key, msg in v:
+        if key not in seen:
+            seen.add(key)
+            out.append((key, msg))
+    return out
